@@ -13,9 +13,14 @@ import Cx.Model.Dfa
         op: S = SearchAt, A = SearchAtAnchored, M = IsMatch, I = IsMatchAt (cached);
             s, a, m, i = the same entry points without a cache; X = Reset the cache (`at`, `hayhex` ignored)
         answer: the results joined by `,` (end | -1 | t | f | G)
-    dfa classcompat <classhex> <nfa>            classCompatB,classStepB (byte classes respect every byte range of the NFA)
+    dfa classcompat <classhex> <nfa>            classCompatB,classStepB (byte classes respect every byte range of the NFA and
+                                                the distinctions its look-around makes: `\n`, word bytes)
+    dfa btfirst <at> <hayhex> <nfa>             the reference for `SearchAtAnchored`: end of the first match the priority DFS
+                                                finds from start position `at` (`Pike.btFirst N h at at`)      → end | -1
+    dfa anchoredhead <nfa>                      anchoredHeadB (always-anchored automaton whose start state is `\A`)
     dfa hyps <nfa>                              wf,lookFree,noRune,sparseDisjoint,prefixOK,hasWB,hasEndLine,alwaysAnchored
-  `G` = the code gives up and runs the Pike VM.  Malformed arguments answer `bad-op`.
+  `G` = the code gives up and runs the Pike VM (`SearchAt` for S/M/I, the ANCHORED `SearchAtAnchored` for A).
+  Malformed arguments answer `bad-op`.
 -/
 namespace Cx.DriverDfa
 open Cx Cx.Dfa
@@ -97,6 +102,16 @@ def handle? (toks : List String) : Option String :=
     match parseCls cls, Driver.parseNfa nfa with
     | some cls, some N => some (toString (classCompatB N cls) ++ "," ++ toString (classStepB N cls))
     | _, _ => some "bad-op"
+  | ["dfa", "btfirst", at_, hex, nfa] =>
+    match parseNat at_, parseHex hex, Driver.parseNfa nfa with
+    | some at_, some h, some N =>
+      some (showEnd (.ok (Nfa.btFind { N := N, h := h, spanStart := at_ } (Nfa.btFuel N h) at_ N.startAnchored
+        (Nfa.freshVis N h)).1))
+    | _, _, _ => some "bad-op"
+  | ["dfa", "anchoredhead", nfa] =>
+    match Driver.parseNfa nfa with
+    | some N => some (toString (anchoredHeadB N))
+    | none => some "bad-op"
   | ["dfa", "hyps", nfa] =>
     match Driver.parseNfa nfa with
     | some N => some (",".intercalate ([wfB N, lookFreeB N, noRuneB N, sparseDisjointB N, prefixOKB N, hasWB N,
